@@ -7,7 +7,8 @@ from framework import REPO, ROOT
 
 TIE = ["Nsq.Tie.AdminAgg"]
 PROPS = ["Nsq.Props.C18"]
-STREAMS = [("getv1", "^TestVerifE7GetV1$"), ("views", "^TestVerifE7Views$"), ("malformed", "^TestVerifE7Malformed$")]
+STREAMS = [("getv1", "^TestVerifE7GetV1$"), ("latency", "^TestVerifE7Latency$"), ("views", "^TestVerifE7Views$"),
+           ("malformed", "^TestVerifE7Malformed$")]
 
 
 # ----------------------------------------------------------------------------- op-line parser
@@ -49,12 +50,19 @@ def p_client(t):
     return {"hostname": t.s(), "id": t.s()}
 
 
+def p_e2e(tok):
+    """latency token: 0 absent/null, 1 present, p:<e>,<e>,… present with that percentiles shape (n = null element)"""
+    if tok.startswith("p:"):
+        return True, [None if e == "n" else int(e) for e in tok[2:].split(",") if e]
+    return tok == "1", []
+
+
 def p_chan(t):
     c = {"name": t.s()}
     for k in ("depth", "backend", "inflight", "deferred", "requeue", "timeout", "msg", "zone", "region", "global", "clientCount"):
         c[k] = t.n()
     c["paused"] = t.next() == "1"
-    c["e2e"] = t.next() == "1"
+    c["e2e"], c["pct"] = p_e2e(t.next())
     c["clients"] = t.counted(lambda: t.nullable("K", lambda: p_client(t)))
     return c
 
@@ -64,7 +72,7 @@ def p_topic(t):
     for k in ("depth", "backend", "msg", "zone", "region", "global"):
         x[k] = t.n()
     x["paused"] = t.next() == "1"
-    x["e2e"] = t.next() == "1"
+    x["e2e"], x["pct"] = p_e2e(t.next())
     x["channels"] = t.counted(lambda: t.nullable("C", lambda: p_chan(t)))
     return x
 
@@ -215,6 +223,28 @@ def property_fails_on(op, impl):
             return "GETV1 against stub behaviour %s (https=%s) returned %s" % (f["mode"], f["https"], a[0])
         if int(a[1]) > 1 or int(a[2]) > 1:
             return "GETV1 sent %s plain and %s TLS requests for one fetch" % (a[1], a[2])
+        return None
+    if op.startswith("lat "):
+        # the latency aggregate: whatever shapes the nodes send, decoding and merging must not panic; the aggregate has
+        # no nil entry and exactly the distinct quantiles of the non-null entries (recomputed here from the op alone)
+        t = op.split()
+        docs = [p_e2e(d)[1] for d in t[3:]]
+        a = impl.split()
+        if a[0] == "panic":
+            return "latency aggregate: %s on percentiles %s" % (impl, " ".join(t[3:]) or "(none)")
+        if a[0] != "ok":
+            return "latency aggregate: unreadable answer %r" % impl[:200]
+        got = a[1] if len(a) > 1 else ""
+        if got == "nil":
+            return None if not docs else "latency aggregate missing although %d node(s) reported one" % len(docs)
+        keys = got.split(",") if got else []
+        if "n" in keys:
+            return "latency aggregate keeps a nil entry (the next Add writes to it): %s" % got
+        want = sorted({k for d in docs for k in d if k is not None})
+        if sorted(set(int(k) for k in keys)) != want:
+            return "latency aggregate has quantiles %s; the nodes reported %s" % (got or "(none)", want)
+        if t[1] == "fresh" and len(keys) != len(set(keys)):
+            return "latency aggregate lists a quantile twice: %s" % got
         return None
     try:
         req, w = parse_op(op)
@@ -408,6 +438,8 @@ def finding_key(site, what=""):
 def _finding_key(site):
     """The same key for a generated failure and for the committed replay of the same defect, so that an entry
     of known_findings (open or fixed) absorbs exactly its own defect."""
+    if "E2eProcessingLatencyAggregate" in site and "UnmarshalJSON" in site:
+        return "crash:null-percentile"
     if "UnmarshalJSON" in site:
         return "crash:clusterinfo.(*Producer).UnmarshalJSON"
     if "TCPAddress" in site or "HTTPAddress" in site:
@@ -562,7 +594,8 @@ def run(ctx):
             model = mout.splitlines()
             kinds = {}
             for o, i in zip(ops, impl):
-                ctx.count_case(o, nontrivial=(i.startswith("200 ") and not i.endswith(" -")) or o.startswith("getv1"))
+                ctx.count_case(o, nontrivial=(i.startswith("200 ") and not i.endswith(" -")) or o.startswith("getv1")
+                               or o.startswith("lat "))
                 k = o.split()[1] + ":" + i.split()[0]
                 kinds[k] = kinds.get(k, 0) + 1
             ctx.corr.setdefault("outcomes", {})[name] = kinds
@@ -577,6 +610,8 @@ def run(ctx):
                     key = "view:%s:%s" % (req_key(o), i.split()[0])
                     if o.startswith("getv1"):
                         key = "getv1:" + o.split()[2]
+                    if o.startswith("lat "):
+                        key = "crash:null-percentile" if " panic decode " in " " + i + " " and "nil map" in i else "latency:" + i[:60]
                     if key == "view:channel:500":
                         key = "view:channel-not-found"
                     elif key == "view:topic:500" and " 0 " in o:
